@@ -35,6 +35,9 @@ VARIABLES stale,   \* [Addr -> BOOLEAN] an expired allowance is still stored (no
 
 mcvars == <<vars, stale, sched, cfgv>>
 View == <<flavour, admins, mutable, al, perm, now, slack, stale, IF GenMode /\ GenFail THEN Len(sched) ELSE 0>>
+\* transition cover: one BFS path per distinct (state, call that led to it), so that calls which lead to an
+\* already known state (no-op calls, self-transfers, alternative ways into a state) get a schedule too
+ViewEv == <<View, ev>>
 
 ExpArgs == Exps \cup {Keep}
 
